@@ -78,6 +78,45 @@ structure Nbr2 (α : Type) where
   te : α
   tev : α
 
+/-- the plane-wave 2-D operator of `sweep` (outside the ±`epsin` box): 4-point operator if
+admissible, else one of the two 3-point operators, else `Big` -/
+def planeWave2 (p : Par2 α) (vref tv te tev : α) : α :=
+  if le tv (te + p.dx * vref) && le te (tv + p.dz * vref) && ge te tev && ge tv tev then
+    let ta := tev + te - tv
+    let tb := tev - te + tv
+    ((tb * p.dz2i + ta * p.dx2i)
+      + sqrt (four * sq vref * (p.dz2i + p.dx2i) - p.dz2i * p.dx2i * sq (ta - tb)))
+      / (p.dz2i + p.dx2i)
+  else if le (te - tev) (sq p.dz * vref / sqrt (sq p.dx + sq p.dz)) && gt (te - tev) zero then
+    te + p.dx * sqrt (sq vref - sq ((te - tev) / p.dz))
+  else if le (tv - tev) (sq p.dx * vref / sqrt (sq p.dx + sq p.dz)) && gt (tv - tev) zero then
+    tv + p.dz * sqrt (sq vref - sq ((tv - tev) / p.dx))
+  else p.big
+
+/-- the perturbation ("spherical") operator of `sweep` (inside the ±`epsin` box) -/
+def spherical2 (p : Par2 α) (vref tv te tev : α) (i j : Nat) (d : Dir2) : α :=
+  if lt tv (te + p.dx * vref) && lt te (tv + p.dz * vref) && ge te tev && ge tv tev then
+    let (t0c, tzc, txc) := tAnad i j p.dz p.dx p.zsa p.xsa p.vzero
+    let tauv := tv - tAna (Int.ofNat i - d.sgntz) j p.dz p.dx p.zsa p.xsa p.vzero
+    let taue := te - tAna i (Int.ofNat j - d.sgntx) p.dz p.dx p.zsa p.xsa p.vzero
+    let tauev := tev - tAna (Int.ofNat i - d.sgntz) (Int.ofNat j - d.sgntx) p.dz p.dx p.zsa p.xsa p.vzero
+    let t2 := delta p.big tauv taue tauev t0c tzc txc p.dzi p.dxi p.dz2i p.dx2i p.vzero vref d.sgntz d.sgntx
+    if lt t2 tv || lt t2 te then p.big else t2
+  else p.big
+
+/-- `np.abs(i - zsi) > epsin or np.abs(j - xsi) > epsin` -/
+def farFromSource (p : Par2 α) (i j : Nat) : Bool :=
+  decide ((Int.ofNat i - p.zsi).natAbs > epsin.toNat) || decide ((Int.ofNat j - p.xsi).natAbs > epsin.toNat)
+
+/-- the slowness used by the 1-D operator along Z at node `(i, j)`: minimum over the two cells
+adjoining the vertical edge -/
+def edgeSlowZ (p : Par2 α) (slow : Grid2 α) (i1 j : Nat) : α :=
+  pymin2 (slow.get zero i1 (Nat.max (j - 1) 0)) (slow.get zero i1 (Nat.min j (p.nx - 2)))
+
+/-- the slowness used by the 1-D operator along X -/
+def edgeSlowX (p : Par2 α) (slow : Grid2 α) (i j1 : Nat) : α :=
+  pymin2 (slow.get zero (Nat.max (i - 1) 0) j1) (slow.get zero (Nat.min i (p.nz - 2)) j1)
+
 /-- The candidates computed by `sweep` at node `(i, j)`: `(t1d1, t1d2, t2d)`.
 They depend on `tt` only through the three upwind neighbours and never on `tt[i, j]`. -/
 def candidates2 (p : Par2 α) (slow : Grid2 α) (tt : Grid2 α) (i j : Nat) (d : Dir2) : α × α × α :=
@@ -87,36 +126,11 @@ def candidates2 (p : Par2 α) (slow : Grid2 α) (tt : Grid2 α) (i j : Nat) (d :
   let te := tt.get zero i (nb j d.sgntx)
   let tev := tt.get zero (nb i d.sgntz) (nb j d.sgntx)
   -- 1D operators
-  let vref1 := pymin2 (slow.get zero i1 (Nat.max (j - 1) 0)) (slow.get zero i1 (Nat.min j (p.nx - 2)))
-  let t1d1 := tv + p.dz * vref1
-  let vref2 := pymin2 (slow.get zero (Nat.max (i - 1) 0) j1) (slow.get zero (Nat.min i (p.nz - 2)) j1)
-  let t1d2 := te + p.dx * vref2
+  let t1d1 := tv + p.dz * edgeSlowZ p slow i1 j
+  let t1d2 := te + p.dx * edgeSlowX p slow i j1
   -- 2D operators
   let vref := slow.get zero i1 j1
-  let t2d :=
-    if decide ((Int.ofNat i - p.zsi).natAbs > epsin.toNat) || decide ((Int.ofNat j - p.xsi).natAbs > epsin.toNat) then
-      -- plane wave
-      if le tv (te + p.dx * vref) && le te (tv + p.dz * vref) && ge te tev && ge tv tev then
-        let ta := tev + te - tv
-        let tb := tev - te + tv
-        ((tb * p.dz2i + ta * p.dx2i)
-          + sqrt (four * sq vref * (p.dz2i + p.dx2i) - p.dz2i * p.dx2i * sq (ta - tb)))
-          / (p.dz2i + p.dx2i)
-      else if le (te - tev) (sq p.dz * vref / sqrt (sq p.dx + sq p.dz)) && gt (te - tev) zero then
-        te + p.dx * sqrt (sq vref - sq ((te - tev) / p.dz))
-      else if le (tv - tev) (sq p.dx * vref / sqrt (sq p.dx + sq p.dz)) && gt (tv - tev) zero then
-        tv + p.dz * sqrt (sq vref - sq ((tv - tev) / p.dx))
-      else p.big
-    else
-      -- spherical
-      if lt tv (te + p.dx * vref) && lt te (tv + p.dz * vref) && ge te tev && ge tv tev then
-        let (t0c, tzc, txc) := tAnad i j p.dz p.dx p.zsa p.xsa p.vzero
-        let tauv := tv - tAna (Int.ofNat i - d.sgntz) j p.dz p.dx p.zsa p.xsa p.vzero
-        let taue := te - tAna i (Int.ofNat j - d.sgntx) p.dz p.dx p.zsa p.xsa p.vzero
-        let tauev := tev - tAna (Int.ofNat i - d.sgntz) (Int.ofNat j - d.sgntx) p.dz p.dx p.zsa p.xsa p.vzero
-        let t2 := delta p.big tauv taue tauev t0c tzc txc p.dzi p.dxi p.dz2i p.dx2i p.vzero vref d.sgntz d.sgntx
-        if lt t2 tv || lt t2 te then p.big else t2
-      else p.big
+  let t2d := if farFromSource p i j then planeWave2 p vref tv te tev else spherical2 p vref tv te tev i j d
   (t1d1, t1d2, t2d)
 
 /-- the solver state threaded through the sweeps: traveltimes and the sign bookkeeping -/
